@@ -3,7 +3,7 @@
    bit mask (see harness/comp/gainloss.py BITS). *)
 From Coq Require Import ZArith List Bool.
 From LV Require Import Common.Cases GainLoss.RoseTree GainLoss.Replay GainLoss.GetGls GainLoss.Parsimony
-  GainLoss.GetGLSr GainLoss.TopDown.
+  GainLoss.GetGLSr GainLoss.TopDown GainLoss.PhyBoGlue.
 Import ListNotations.
 Local Open Scope Z_scope.
 
@@ -100,3 +100,32 @@ Definition td_case_code (c : td_case) : nat :=
            | None => true
            end)
   + bit 6 (match tc_out c with Some ev => negb (conflictb ev) | None => true end).
+
+(* PhyBo.get_GLS on a generated dataset: one item per (mode, cognate set) *)
+Record phybo_item := {
+  pi_mode : glmode;
+  pi_gpl : Z;
+  pi_push : bool;
+  pi_md : Z;
+  pi_paps : list Z;            (* phy.paps[cog] before the call *)
+  pi_exact : bool;             (* compare with the model (false for top-down: the result depends on
+                                  the cognate sets processed before, see notes/design/C07.md) *)
+  pi_out : story               (* phy.gls[glm][cog][0] *)
+}.
+
+Record phybo_case := {
+  pc_tree : tree;
+  pc_taxa : list Z;
+  pc_items : list phybo_item
+}.
+
+Definition phybo_item_code (t : tree) (taxa : list Z) (i : phybo_item) : nat :=
+  let pat := combine taxa (pi_paps i) in
+  bit 0 (negb (pi_exact i) ||
+         result_eqb (phybo_per_cog pat t (pi_mode i) (pi_gpl i) (pi_push i) (pi_md i)) (pi_out i))
+  + bit 1 (replay_okb (pi_md i) pat t (pi_out i))
+  + bit 6 (negb (conflictb (pi_out i)))
+  + bit 7 (Nat.eqb (length taxa) (length (pi_paps i))).
+
+Definition phybo_case_code (c : phybo_case) : nat :=
+  fold_right (fun i acc => Nat.lor (phybo_item_code (pc_tree c) (pc_taxa c) i) acc) 0%nat (pc_items c).
